@@ -238,6 +238,39 @@ impl HistoryProp for P08 {
     }
 
     fn finish(&mut self, ctx: &mut Ctx, sim: &mut Sim) -> Option<(String, String)> {
+        // ---- phase 0: without any answer from the application, every interim response the clients' input
+        // asks for must arrive (a client waiting for its 100 must not depend on other requests being answered)
+        if self.strict_100 {
+            let bound = Self::settle_bound(sim);
+            let (_calls, idle) = sim.settle(bound, None);
+            if let Some(v) = self.inline_checks(sim) {
+                return Some(v);
+            }
+            if idle {
+                for g in &sim.gens {
+                    let m = crate::model::m1(&g.sent, g.limit_at_accept);
+                    if m.dont_care || m.events.iter().any(|e| matches!(e, crate::model::M1Event::Error { .. })) {
+                        continue;
+                    }
+                    let want = m.events.iter().filter(|e| matches!(e, crate::model::M1Event::Continue100 { .. })).count();
+                    if want == 0 {
+                        continue;
+                    }
+                    match judge_client(g, &JudgeOpts { allow_500: false }) {
+                        Err(e) => return Some(e),
+                        Ok(v) => {
+                            ctx.rep.count("interim_responses_checked_before_any_answer");
+                            if v.continues != want {
+                                return Some((
+                                    "stall:missing-100".into(),
+                                    format!("c{}g{}: its input asks for {} interim responses; with the server idle, the client drained and the application not having answered anything yet it has received {}", g.client, g.gen, want, v.continues),
+                                ));
+                            }
+                        }
+                    }
+                }
+            }
+        }
         // ---- phase 1: settle with partially sent requests left as they are
         let bound = Self::settle_bound(sim);
         let (calls, idle) = sim.settle(bound, Some(0));
